@@ -1,6 +1,8 @@
 """C11 - listby/unlist, groupby/ungroup and pivot/unpivot are lossless regroupings."""
 import json
 from harness.enc import IdMap, tag, untag, table_from, proj_table
+from harness.core import Machinery
+from harness.x_regroup_session import obs_session
 from pyg_base import dictable, cmp, first, last
 
 AGG = {'list': None, 'len': len, 'first': first, 'last': last}
@@ -139,6 +141,50 @@ def nan_objects(t, y):
     return ['none', 'one', 'several'][min(n, 2)]
 
 
+SESSION_OPS = ('sort', 'listby', 'unlist', 'groupby', 'ungroup', 'pivot', 'unpivot', 'edit', 'respec')
+
+
+def sessions(ctx):
+    """histories on caller-owned objects (RegroupSession.tla / MC_RegroupS.tla): TLC enumerates them (its run checks that the
+    constructive mechanism obeys the session law on every step), the real objects live through them, Trace_Regroup judges"""
+    rng = ctx.rng
+    if ctx.quick:
+        gens = [('MC_RegroupS_genq.cfg', {}, 4000)]
+    else:
+        # the mechanisms the law forbids must be rejected by the session law inside TLC
+        for m in ('tag', 'alias', 'pop', 'keys'):
+            ctx.mc('MC_RegroupS', 'MC_RegroupS_%s.cfg' % m, must_fail='StepLaw', coverage=False)
+        gens = [('MC_RegroupS_genq.cfg', {}, 4000), ('MC_RegroupS_genw.cfg', {}, 9000),
+                ('MC_RegroupS_sim.cfg', dict(simulate=200, depth=7, seed=ctx.seed + 1, workers=1), 5000)]
+    obs = []
+    for g, kw, cap in gens:
+        cases = ctx.generate('MC_RegroupS', g, **kw)
+        for e in cases:
+            if set(e) != {'init', 'plan', 'hist'} or any(set(cl) != set(cases[0]['hist'][0]) for cl in e['hist']):
+                raise Machinery('generator %s printed a mangled history' % g)
+        cases = sorted({json.dumps(e, sort_keys=True) for e in cases})      # (simulation prints siblings more than once)
+        if len(cases) > cap:
+            cases = rng.sample(cases, cap)
+        for e in map(json.loads, cases):
+            o = obs_session(e, proj)
+            if o['init'] != e['init']:
+                raise Machinery('the initial store of a session is not rendered as TLC printed it')
+            obs.append(o)
+            ctx.note(('session', o['plan'], json.dumps([cl['op'] for cl in e['hist']]), json.dumps(e['init'][0])))
+        ctx.sample({'tlc_session': {'plan': ''.join(json.loads(cases[len(cases) // 2])['plan']),
+                                    'calls': [{k: v for k, v in cl.items() if v not in ('', 0, [])} for cl in json.loads(cases[len(cases) // 2])['hist']]}})
+    seen = {s['call']['op'] for o in obs for s in o['steps']}
+    if set(SESSION_OPS) - seen:
+        raise Machinery('vacuous: no session contains a step %s' % sorted(set(SESSION_OPS) - seen))
+    ctx.evals += sum(len(o['steps']) for o in obs)
+    for line, clause in ctx.validate('Trace_Regroup', obs):
+        o = obs[line - 1]
+        ctx.violation(clause, {'op': 'session', 'plan': o['plan'], 'calls': [s['call']['op'] for s in o['steps']], 'init': o['init'],
+                               'hist': [s['call'] for s in o['steps']]},
+                      {'steps': [{'call': {k: v for k, v in s['call'].items() if v not in ('', 0, [])}, 'raised': s['raised'], 'post': s['post']} for s in o['steps']]})
+    ctx.sample({'observation_session': obs[len(obs) // 2]})
+
+
 def run(ctx):
     ctx.rule = ('TLC enumerates tables (<= 2-3 rows, key cells None/1/1.0/2/"s"/date/two NaN objects, unique id column) x key choices; '
                 'each is pushed through listby+unlist, groupby+ungroup and (decorated with y/z columns) pivot+unpivot in rotating spellings. '
@@ -147,6 +193,13 @@ def run(ctx):
                 'spelling of the keys (names / one list; pivot: one name / a list) and for pivot the y universe of each naming (labels that are '
                 'substrings / prefixes / super-strings of the x name, equal to the y, z or another column name, "", ints, floats, None, a datetime, '
                 'NaN, inf); random tables up to 20 rows likewise under random namings. Trace_Regroup judges every observation. '
+                'SESSIONS (RegroupSession / MC_RegroupS): a store of caller-owned objects (a table, two lists of column names, a {name: columns} '
+                'dict); TLC enumerates histories of calls sort / listby / groupby / pivot on any table of the store and unlist / ungroup / unpivot '
+                'on any earlier result, the names handed over one by one or as the list object, unpivot\'s y as the name or as the dict object, '
+                'with in-place edits of a column and of a names list between calls (plans: forward-inverse-inverse, sort-edit-forward-inverse, '
+                'forward-edit-forward-inverse, forward-forward-inverse-inverse, forward-respec-forward-inverse, forward-inverse-forward-inverse; '
+                'thorough: wider tables / name lists / dicts, longer plans, simulated free sessions of 6 steps); after EVERY step every object is '
+                'projected again; the law judges each result by the arguments as they are at that moment and rejects any object that changed. '
                 'Non-trivial = some key class has more than one row / a label that occurs in a column name or is not a string.')
     ctx.mc('MC_Regroup', 'MC_Regroup_quick.cfg' if ctx.quick else 'MC_Regroup_thorough.cfg')
     if not ctx.quick:       # quick: the laws of MC_RegroupN are invariants of its generator run below
@@ -233,6 +286,7 @@ def run(ctx):
         ctx.violation(clause, case, {k: o[k] for k in ('stage', 'out', 'unl', 'ung', 'unp', 'colcmp', 'raised', 'after') if k in o})
     ctx.sample({'observation': obs[1]})
     ctx.sample({'observation_pivot': next(o for o in reversed(obs) if o['op'] == 'pivot')})
+    sessions(ctx)
     ctx.exhaustive = False
     ctx.assumptions += ['key cells of results are compared with the key equality of the statement (a class shows one representative, 1 or 1.0)',
                         'pivot: a str y value is its own column label, an int its decimal string, any other scalar (None, float, datetime, NaN, inf) labels its column '
@@ -242,12 +296,17 @@ def run(ctx):
                         'the unpivot clause is checked on tables with unique (x, y) cells; rows with None z are the ones dropped',
                         'key arguments are spelled as separate names or one list (listby/groupby), one name or a list (pivot/unpivot x); tuples are not a '
                         'spelling of several keys in dictable (a tuple is one composite key) and y / z are always single names',
-                        'row order of listby/groupby/pivot results is not pinned; unlist must be sorted under the real cmp, stable and contiguous']
+                        'row order of listby/groupby/pivot results is not pinned; unlist must be sorted under the real cmp, stable and contiguous',
+                        'sessions: the result of sort is an ordinary table of the store and is not judged (C07); a regrouped table that the caller '
+                        'edited in place is no longer the regrouping of anything: inverse calls on it are not generated; the {name: columns} spelling '
+                        'of unpivot\'s y asks for the rows of the listed columns only; unpivot is followed by dropping the None cells (as in the '
+                        'statement); edits are made on tables of two or more rows, the id column is never edited']
 
 
 def replay(ctx, body):
     c = body['case']
-    if c['op'] == 'listby': o = obs_listby(c['t'], c['by'], c.get('form', 'names'), idcol=c.get('idcol', 'p'))
+    if c['op'] == 'session': o = obs_session({'init': c['init'], 'hist': c['hist'], 'plan': list(c.get('plan', ''))}, proj)
+    elif c['op'] == 'listby': o = obs_listby(c['t'], c['by'], c.get('form', 'names'), idcol=c.get('idcol', 'p'))
     elif c['op'] == 'groupby': o = obs_groupby(c['t'], c['by'], c.get('form', 'names'), c.get('grp', 'grp'))
     else: o = obs_pivot(c['t'], c['x'], c.get('form', 'list'), c['y'], c['z'], c['agg'], 0)
     bad = ctx.validate('Trace_Regroup', [o])
